@@ -119,6 +119,10 @@ def constructed(rng):
             for sgn in (1, -1):
                 for op in ("floor", "ceil", "trunc", "fract", "magn"):
                     out.append("%s %s" % (op, G.fD(sgn * c, s)))
+    # decision boundary of division-free divisibility tests (x * inverse(5^n) mod 2^w against floor((2^w - 1) / 5^n))
+    for c, n_ in G.modinv_boundary_all(rng):
+        for op in ("floor", "ceil", "trunc", "fract", "preds"):
+            out.append("%s %s" % (op, G.fD(c * rng.choice((1, -1)), n_)))
     # abs_sub: x <= y with unrepresentable difference must still give zero
     for x, y in (((-M, 0), (M, 0)), ((-P10[25], 0), (1, 18)), ((-M, 18), (P10[22], 0)), ((M, 0), (-M, 0)),
                  ((5, 1), (5, 1)), ((50, 2), (5, 1)), ((M, 0), (1, 18)), ((M, 5), (M, 5)), ((M, 5), (-1, 5))):
